@@ -289,6 +289,29 @@ pub fn run(op: &str, case: &Value) -> Result<Value> {
                 Err(e) => json!({"err": format!("{e}")}),
             }
         }
+        "mps_roundtrip" => {
+            let inst: v1::Instance = msg(&case["instance"])?;
+            let dir = std::env::temp_dir().join(format!("ommx-replay-{}", std::process::id()));
+            std::fs::create_dir_all(&dir)?;
+            let path = dir.join("roundtrip.mps.gz");
+            let r = match ommx::mps::write_file(&inst, &path) {
+                Err(e) => json!({"write_err": format!("{e}")}),
+                Ok(()) => {
+                    let mut text = String::new();
+                    {
+                        use std::io::Read;
+                        let f = std::fs::File::open(&path)?;
+                        flate2::read::GzDecoder::new(f).read_to_string(&mut text)?;
+                    }
+                    match ommx::mps::load_file(&path) {
+                        Ok(i) => json!({"ok": {"instance": enc(&i), "text": text}}),
+                        Err(e) => json!({"read_err": format!("{e}"), "text": text}),
+                    }
+                }
+            };
+            let _ = std::fs::remove_dir_all(&dir);
+            r
+        }
         _ => bail!("unknown op {op}"),
     })
 }
